@@ -17,6 +17,95 @@ import hier_common as hc
 from common import Check
 
 M = 18
+MP = 118  # Model/CompareParams.v
+LABELS = {"Parameter name": 1, "Byte position": 2, "Bit Length": 3, "Semantic": 4, "Parameter type": 5, "Data type": 6,
+          "Value": 7, "Values": 8, "Linked DOP object": 9, "DOP name": 10, "DOP unit name": 11, "DOP unit display name": 12,
+          "DOP unit object": 13, "DOP physical data type": 14, "Constant value": 15, "Default value": 16}
+
+
+class Interner:
+    """values -> small integers: equal integers iff equal values (by == for objects, e.g. dataclass equality of DOPs)"""
+
+    def __init__(self):
+        self.keys, self.objs = {}, []
+
+    def of(self, v):
+        try:
+            return self.keys.setdefault(("h", v), len(self.keys) + 1)
+        except TypeError:
+            return self.eq(v)
+
+    def eq(self, o):
+        for i, x in enumerate(self.objs):
+            if x == o:
+                return 1000 + i
+        self.objs.append(o)
+        return 1000 + len(self.objs) - 1
+
+
+def abs_param(p, I):
+    """the attributes Comparison.compare_parameters looks at, as the wire form of Model/CompareParams.par_of"""
+    from odxtools.parameters.codedconstparameter import CodedConstParameter
+    from odxtools.parameters.nrcconstparameter import NrcConstParameter
+    from odxtools.parameters.physicalconstantparameter import PhysicalConstantParameter
+    from odxtools.parameters.valueparameter import ValueParameter
+    opt = lambda v: [] if v is None else [v]
+    if isinstance(p, CodedConstParameter):
+        kind = [0, I.of(p.diag_coded_type.base_data_type.name), I.of(repr(p.coded_value))]
+    elif isinstance(p, NrcConstParameter):
+        kind = [1, I.of(p.diag_coded_type.base_data_type.name), [I.of(repr(v)) for v in p.coded_values]]
+    elif getattr(p, "dop", None) is not None:
+        d = p.dop
+        u = getattr(d, "unit", None)
+        unit = [I.eq(u), I.of(u.short_name), I.of(u.display_name)] if u else []
+        pt = getattr(d, "physical_type", None)
+        phys = [I.of(pt.base_data_type.name)] if pt else []
+        if isinstance(p, PhysicalConstantParameter):
+            extra = [0, I.of(repr(p.physical_constant_value))]
+        elif isinstance(p, ValueParameter):
+            extra = [1, opt(None if p.physical_default_value is None else I.of(repr(p.physical_default_value)))]
+        else:
+            extra = [2]
+        kind = [2, I.eq(d), I.of(d.short_name), unit, phys, extra]
+    else:
+        kind = [3]
+    return [I.of(p.short_name), I.of(p.parameter_type), opt(p.byte_position), opt(p.get_static_bit_length()),
+            opt(None if p.semantic is None else I.of(p.semantic)), kind]
+
+
+def param_cases(dl_new, dl_old, tag):
+    """for every service present in both layers: request and positive responses, parameter lists new vs old.
+    -> list of (wire case, implementation result in the model's output form, description)"""
+    from odxtools.cli.compare import Comparison
+    cmp_ = Comparison()
+    out = []
+    for sv in dl_new.services:
+        so = next((x for x in dl_old.services if x.short_name == sv.short_name), None)
+        if so is None:
+            continue
+        pairs = [("request", sv.request, so.request)]
+        if len(sv.positive_responses) == len(so.positive_responses):
+            pairs += [(f"positive response {i}", a, b) for i, (a, b) in enumerate(zip(sv.positive_responses, so.positive_responses))]
+        if len(sv.negative_responses) == len(so.negative_responses):
+            pairs += [(f"negative response {i}", a, b) for i, (a, b) in enumerate(zip(sv.negative_responses, so.negative_responses))]
+        for what, a, b in pairs:
+            if a is None or b is None:
+                continue
+            I = Interner()
+            l1, l2 = list(a.parameters), list(b.parameters)
+            wire = [MP, [[abs_param(x, I) for x in l1], [abs_param(x, I) for x in l2]]]
+            if len(l1) != len(l2):
+                impl = []
+            else:
+                rows = []
+                for p1, p2 in zip(l1, l2):
+                    props = cmp_.compare_parameters(p1, p2)["Property"]
+                    codes = [LABELS.get(x.strip(), 99) for x in props]
+                    if codes:
+                        rows.append([I.of(p2.short_name), codes])
+                impl = [rows]
+            out.append((wire, impl, f"{tag}: service {sv.short_name}, {what}"))
+    return out
 BTN = ["A_INT32", "A_UINT32"]
 
 
@@ -154,6 +243,45 @@ def abstract(layer, dl):
     return out
 
 
+def attr_doc(k):
+    """a layer with one service whose messages carry every parameter kind compare_parameters distinguishes; k: knobs"""
+    u8 = '<DIAG-CODED-TYPE BASE-DATA-TYPE="A_UINT32" xsi:type="STANDARD-LENGTH-TYPE"><BIT-LENGTH>8</BIT-LENGTH></DIAG-CODED-TYPE>'
+    const = lambda n, v: f'<PARAM xsi:type="CODED-CONST"><SHORT-NAME>{n}</SHORT-NAME><CODED-VALUE>{v}</CODED-VALUE>{u8}</PARAM>'
+    return ('<?xml version="1.0" encoding="UTF-8"?><ODX MODEL-VERSION="2.2.0" xmlns:xsi="http://www.w3.org/2001/XMLSchema-instance">'
+            '<DIAG-LAYER-CONTAINER ID="DLC"><SHORT-NAME>DLC</SHORT-NAME><BASE-VARIANTS><BASE-VARIANT ID="BV"><SHORT-NAME>BV</SHORT-NAME>'
+            '<DIAG-DATA-DICTIONARY-SPEC><DATA-OBJECT-PROPS>'
+            f'<DATA-OBJECT-PROP ID="d1"><SHORT-NAME>{k.get("dopname", "d1")}</SHORT-NAME><COMPU-METHOD><CATEGORY>LINEAR</CATEGORY><COMPU-INTERNAL-TO-PHYS><COMPU-SCALES>'
+            '<COMPU-SCALE><COMPU-RATIONAL-COEFFS><COMPU-NUMERATOR><V>0</V><V>1</V></COMPU-NUMERATOR><COMPU-DENOMINATOR><V>1</V></COMPU-DENOMINATOR>'
+            f'</COMPU-RATIONAL-COEFFS></COMPU-SCALE></COMPU-SCALES></COMPU-INTERNAL-TO-PHYS></COMPU-METHOD>{u8}'
+            f'<PHYSICAL-TYPE BASE-DATA-TYPE="{k.get("phys", "A_UINT32")}"/><UNIT-REF ID-REF="{k.get("unitref", "u1")}"/></DATA-OBJECT-PROP>'
+            '</DATA-OBJECT-PROPS><UNIT-SPEC><UNITS>'
+            f'<UNIT ID="u1"><SHORT-NAME>{k.get("uname", "km")}</SHORT-NAME><DISPLAY-NAME>{k.get("udisp", "km")}</DISPLAY-NAME>'
+            f'<FACTOR-SI-TO-UNIT>{k.get("ufactor", 1)}</FACTOR-SI-TO-UNIT></UNIT>'
+            '<UNIT ID="u2"><SHORT-NAME>mi</SHORT-NAME><DISPLAY-NAME>mi</DISPLAY-NAME></UNIT></UNITS></UNIT-SPEC></DIAG-DATA-DICTIONARY-SPEC>'
+            '<DIAG-COMMS><DIAG-SERVICE ID="svc"><SHORT-NAME>svc</SHORT-NAME><REQUEST-REF ID-REF="rq"/>'
+            '<POS-RESPONSE-REFS><POS-RESPONSE-REF ID-REF="pr"/></POS-RESPONSE-REFS>'
+            '<NEG-RESPONSE-REFS><NEG-RESPONSE-REF ID-REF="nr"/></NEG-RESPONSE-REFS></DIAG-SERVICE></DIAG-COMMS>'
+            f'<REQUESTS><REQUEST ID="rq"><SHORT-NAME>rq</SHORT-NAME><PARAMS>{const("sid", 0x22)}'
+            f'<PARAM xsi:type="VALUE"><SHORT-NAME>{k.get("pname", "p_val")}</SHORT-NAME>'
+            + (f'<PHYSICAL-DEFAULT-VALUE>{k.get("default", 5)}</PHYSICAL-DEFAULT-VALUE>' if k.get("default", 5) is not None else "") +
+            '<DOP-REF ID-REF="d1"/></PARAM>'
+            + (f'<PARAM xsi:type="PHYS-CONST"><SHORT-NAME>p_pc</SHORT-NAME><PHYS-CONSTANT-VALUE>{k.get("pc", 7)}</PHYS-CONSTANT-VALUE><DOP-REF ID-REF="d1"/></PARAM>'
+               if not k.get("pc_as_value") else '<PARAM xsi:type="VALUE"><SHORT-NAME>p_pc</SHORT-NAME><DOP-REF ID-REF="d1"/></PARAM>') +
+            '</PARAMS></REQUEST></REQUESTS>'
+            f'<POS-RESPONSES><POS-RESPONSE ID="pr"><SHORT-NAME>pr</SHORT-NAME><PARAMS>{const("sid", 0x62)}</PARAMS></POS-RESPONSE></POS-RESPONSES>'
+            f'<NEG-RESPONSES><NEG-RESPONSE ID="nr"><SHORT-NAME>nr</SHORT-NAME><PARAMS>{const("sid", 0x7F)}'
+            f'<PARAM xsi:type="NRC-CONST"><SHORT-NAME>nrc</SHORT-NAME><CODED-VALUES>' + "".join(f"<CODED-VALUE>{v}</CODED-VALUE>" for v in k.get("nrcs", (16, 17))) +
+            f'</CODED-VALUES>{u8}</PARAM></PARAMS></NEG-RESPONSE></NEG-RESPONSES>'
+            '</BASE-VARIANT></BASE-VARIANTS></DIAG-LAYER-CONTAINER></ODX>')
+
+
+ATTR_VARIANTS = [("parameter renamed", dict(pname="p_val2"), 1), ("parameter type", dict(pc_as_value=True), 5),
+                 ("NRC values", dict(nrcs=(16, 18)), 8), ("unit of the DOP", dict(unitref="u2"), 11),
+                 ("display name of the unit", dict(udisp="KM"), 12), ("factor of the unit", dict(ufactor=2), 13),
+                 ("physical type of the DOP", dict(phys="A_INT32"), 14), ("physical constant", dict(pc=8), 15),
+                 ("default value", dict(default=6), 16), ("name of the DOP", dict(dopname="d1x"), 10)]
+
+
 def run_compare(dl_new, dl_old):
     from odxtools.cli.compare import Comparison
     cmp_ = Comparison()
@@ -189,6 +317,7 @@ def main(argv=None):
                 es = es[:8] + rng.sample(es[8:], 22)
             layers.append((base, [("self", copy.deepcopy(base), dict())] + es))
     pending = []  # (wire, impl result, names, report) for the model comparison
+    ppending = []  # (wire, impl rows, description, report): attribute level, Model/CompareParams.v
     wi = 0
     for li, (base, es) in enumerate(layers):
         try:
@@ -234,6 +363,12 @@ def main(argv=None):
             elif label.startswith("change-") and exp["prop"] not in r["props"]:
                 ck.violation(f"edit '{label}' of parameter {exp['param']}: the changed property '{exp['prop']}' is not listed "
                              f"(listed: {r['props']})", rep)
+                continue
+            try:
+                for w_, i_, d_ in param_cases(db_new.diag_layers[0], dl_old, f"edit '{label}'"):
+                    ppending.append((w_, i_, d_, rep))
+            except Exception as e:  # noqa
+                ck.violation(f"compare_parameters raised {type(e).__name__}: {e} (edit '{label}')", rep)
                 continue
             # abstraction for the model: (name, constant request prefix as the library computes it, content)
             names, bodies = {}, {}
@@ -299,6 +434,57 @@ def main(argv=None):
             ck.note_broken(f"model execution failed: {e}")
     elif not ck.model_available():
         ck.note_broken("model not built")
+    # attribute level: the shipped example pair too (units, text tables, structures, physical constants)
+    if not ck.replay:
+        try:
+            import odxtools
+            da = odxtools.load_pdx_file(common.REPO + "/examples/somersault.pdx")
+            dbm = odxtools.load_pdx_file(common.REPO + "/examples/somersault_modified.pdx")
+            for la in dbm.diag_layers:
+                lb = next((x for x in da.diag_layers if x.short_name == la.short_name), None)
+                if lb is not None:
+                    for w_, i_, d_ in param_cases(la, lb, f"somersault_modified vs somersault, layer {la.short_name}"):
+                        ppending.append((w_, i_, d_, {"shipped": True, "layer": la.short_name}))
+        except Exception as e:  # noqa
+            ck.note_broken(f"attribute-level comparison of the shipped examples failed: {type(e).__name__}: {e}")
+    # ... and a hand-written layer in which one attribute at a time differs: the property must be among the reported ones
+    if not ck.replay:
+        try:
+            base_db = hc.load_docs([attr_doc({})])
+            for what, knobs, code in ATTR_VARIANTS:
+                vdb = hc.load_docs([attr_doc(knobs)])
+                cases_ = param_cases(vdb.diag_layers[0], base_db.diag_layers[0], f"attribute variant '{what}'")
+                ck.count(("attr", what))
+                got = {c for _, impl, _ in cases_ for row in (impl[0] if impl else []) for c in row[1]}
+                if code not in got:
+                    ck.violation(f"a layer which differs from the base in the {what} only: compare_parameters reports the properties "
+                                 f"{sorted(got)}, not {code} ({[k for k, v in LABELS.items() if v == code][0]})",
+                                 {"attribute_variant": what, "knobs": {k: (list(v) if isinstance(v, tuple) else v) for k, v in knobs.items()}})
+                for w_, i_, d_ in cases_:
+                    ppending.append((w_, i_, d_, {"attribute_variant": what}))
+        except Exception as e:  # noqa
+            ck.note_broken(f"attribute variants failed: {type(e).__name__}: {e}")
+    if ck.model_available() and ppending:
+        try:
+            mres = common.run_model_ocaml([p[0] for p in ppending], chunk=100)
+            pick = sorted(rng.sample(range(len(ppending)), min(len(ppending), 30 if quick else 150)))
+            cres = common.run_model_coq([ppending[i][0] for i in pick], tag="c18p", chunk=15)
+            if any(x != mres[i] for i, x in zip(pick, cres)):
+                ck.note_broken("extracted model and vm_compute disagree (CompareParams)")
+            nrep = 0
+            for (wire, impl, desc, rep_), m in zip(ppending, mres):
+                ck.count(("params", json.dumps(wire)), nontrivial=bool(impl and impl[0]))
+                for row in (impl[0] if impl else []):
+                    for c in row[1]:
+                        ck.hist("reported_property", c)
+                if impl != m and nrep < 5:
+                    nrep += 1
+                    ck.violation(f"compare_parameters and the model disagree ({desc}): reported {impl}, model {m}",
+                                 dict(rep_, impl=impl, model=m, what=desc, broken="correspondence CompareParams.compare_message"),
+                                 found_input=False)
+            ck.coverage["parameter_list_comparisons"] = len(ppending)
+        except Exception as e:  # noqa
+            ck.note_broken(f"model execution failed (CompareParams): {e}")
     ck.assumptions = ["edits which change the constant request prefix are reported as new + deleted by design of the tool (its own TODO)"]
     ck.finish(
         trusted_base=["Coq 8.16.1 kernel; no axioms", "extraction + driver cross-checked with vm_compute",
